@@ -562,6 +562,54 @@ func rt_14(c *core.Ctx, p *core.Prog) {
 				ok = false
 			}
 		}
+		// the rows are sorted on every path before the first Encode: the group-delta codec relies on the
+		// sorter's own order (e.g. value-less exemplars first), also when only one parent contributed rows
+		isSort := func(i ssa.Instruction, depth int) bool { return false }
+		var sortIn func(f *ssa.Function, depth int) bool
+		isSortCall := func(i ssa.Instruction, depth int) bool {
+			cl, isCl := i.(*ssa.Call)
+			if !isCl {
+				return false
+			}
+			if cl.Call.IsInvoke() && cl.Call.Method.Name() == "Sort" {
+				if it, isIt := cl.Call.Value.Type().Underlying().(*types.Interface); isIt {
+					for k := 0; k < it.NumMethods(); k++ {
+						if it.Method(k).Name() == "Encode" {
+							return true
+						}
+					}
+				}
+				return false
+			}
+			if callee := cl.Call.StaticCallee(); callee != nil && core.InRepo(core.FnPkgPath(callee)) && depth < 2 {
+				return sortIn(callee, depth+1)
+			}
+			return false
+		}
+		sortIn = func(f *ssa.Function, depth int) bool {
+			if f == nil || f.Blocks == nil {
+				return false
+			}
+			return core.MustPassBetween(f, nil, nil, func(i ssa.Instruction) bool { return isSortCall(i, depth) })
+		}
+		_ = isSort
+		sorted := true
+		for _, e := range encs {
+			if !core.MustPassBetween(fn, nil, e, func(i ssa.Instruction) bool { return isSortCall(i, 0) }) {
+				sorted = false
+			}
+		}
+		// builders whose rows are sorted elsewhere (the main records are sorted by their optimizer) have no Sort at all
+		anySort := false
+		core.EachInstr(fn, func(i ssa.Instruction) {
+			if isSortCall(i, 0) {
+				anySort = true
+			}
+		})
+		if anySort {
+			c.Check(sorted, "sort="+core.FuncName(fn), p.Pos(encs[0].Pos()), core.FuncName(fn), "the rows are sorted on every path before the first parent-id Encode",
+				"a build can reach the sorter's Encode without having sorted the rows (the Sort call is conditional): the group-delta parent-id codec assumes the sorter's own order — with unsorted rows the encoder writes an absolute parent id where the decoder expects a delta (or the reverse), and related records land on the wrong parent")
+		}
 		c.Check(ok, "build="+core.FuncName(fn), p.Pos(encs[0].Pos()), core.FuncName(fn), "the sorter is reset on every path before the first parent-id Encode of this build",
 			"a build can reach the sorter's Encode without the sorter having been reset in the same build: the group state (previous key/value/parent id) of the previous batch or of the previous attempt (schema-update retry) leaks in, the first parent id of a group is written as a delta while the decoder reads it as absolute, and attributes/events/links/exemplars/data points land on the wrong parent")
 	}
